@@ -22,6 +22,7 @@
 #include <tao/pegtl.hpp>
 #include <tao/pegtl/buffer_input.hpp>
 #include <tao/pegtl/contrib/rep_one_min_max.hpp>
+#include <tao/pegtl/utf8.hpp>
 
 namespace pegtl = tao::pegtl;
 
@@ -106,6 +107,9 @@ static int match_atom( const std::string& name, In& in )
    if( name == "r13" ) return pegtl::rep_one_min_max< 1, 3, 'a' >::match( in );
    if( name == "r02" ) return pegtl::rep_one_min_max< 0, 2, 'a' >::match( in );
    if( name == "rn2" ) return pegtl::rep_one_min_max< 1, 2, '\n' >::match( in );
+   if( name == "u8r" ) return pegtl::utf8::range< 0x80, 0x7FF >::match( in );
+   if( name == "u8n" ) return pegtl::utf8::not_range< 0x61, 0xFFFF >::match( in );
+   if( name == "u8w" ) return pegtl::utf8::range< 0, 0x10FFFF >::match( in );
    return -1;
 }
 
